@@ -124,5 +124,90 @@ func VH_C13_logs_init_arith() {
 	}
 	vrt.Assert(lo, "series-index-read-has-a-lower-date-bound")
 	vrt.Assert(typeIn == wantType, "series-index-read-restricted-to-the-api-signal")
+
+	// the series-selection statement (LogQL selectors, Prometheus matchers, profile selectors)
+	ss, err := NewStreamSelectPlanner([]string{"app"}, []string{"="}, []string{"x"}).Process(ctx)
+	vrt.Assert(err == nil, "selector-statement-built")
+	ops, rhs, typeIn = vwPredicates(ss, "date")
+	lo = false
+	for i, op := range ops {
+		if op == ">=" || op == ">" {
+			day := vlib.DayOf(rhs[i][1 : len(rhs[i])-1])
+			vrt.Assert(day >= 0 && day <= from/86400 && day >= from/86400-1, "selector-index-lower-date-bound-covers-the-window-start")
+			vrt.Assert(op == ">=", "selector-index-lower-date-bound-inclusive")
+			lo = true
+		}
+	}
+	vrt.Assert(lo, "selector-index-read-has-a-lower-date-bound")
+	vrt.Assert(typeIn == wantType, "selector-index-read-restricted-to-the-api-signal")
+	vrt.Reach("end")
+}
+
+// vwDateBounds checks the index date predicates of one statement: an inclusive lower bound on the UTC day
+// of `from` or the day before, and - when present - an upper bound that is not earlier than the UTC day of
+// `to` (index rows carry the UTC day of the sample) and not later than the day after.
+func vwDateBounds(sel sql.ISelect, column string, from, to int64, needUpper bool, what string) {
+	ops, rhs, _ := vwPredicates(sel, column)
+	lo, hi := false, false
+	for i, op := range ops {
+		vrt.Assert(len(rhs[i]) > 2, what+"-date-literal")
+		day := vlib.DayOf(rhs[i][1 : len(rhs[i])-1])
+		vrt.Assert(day >= 0, what+"-date-literal-well-formed")
+		switch op {
+		case ">=", ">":
+			vrt.Assert(day <= from/86400, what+"-index-lower-date-bound-covers-the-window-start")
+			vrt.Assert(day >= from/86400-1, what+"-index-lower-date-bound-not-wider-than-one-day")
+			vrt.Assert(op == ">=", what+"-index-lower-date-bound-inclusive")
+			lo = true
+		case "<=", "<":
+			vrt.Assert(day >= to/86400, what+"-index-upper-date-bound-covers-the-window-end")
+			vrt.Assert(day <= to/86400+1, what+"-index-upper-date-bound-not-wider-than-one-day")
+			vrt.Assert(op == "<=", what+"-index-upper-date-bound-inclusive")
+			hi = true
+		}
+	}
+	vrt.Assert(lo, what+"-index-read-has-a-lower-date-bound")
+	if needUpper {
+		vrt.Assert(hi, what+"-index-read-has-an-upper-date-bound")
+	}
+}
+
+// VH_C13_series_values_arith: the statements of the series and label-values endpoints (with and without
+// match[] selectors) read the label index by a date range that covers the window in UTC days - for every
+// window and every whole-hour process zone - and by type IN (signal, both).
+func VH_C13_series_values_arith() {
+	vrt.Unwind(300)
+	vrt.SymbolicTZ()
+	ctx, from, to := vwCtx()
+	wantType := "type IN (1,0)"
+	if ctx.Type == 2 {
+		wantType = "type IN (2,0)"
+	}
+	var fp shared.SQLRequestPlanner
+	if vrt.Bool("with-selector") {
+		fp = NewStreamSelectPlanner([]string{"app"}, []string{"="}, []string{"x"})
+	}
+	if vrt.Bool("series-endpoint") {
+		if fp == nil {
+			fp = NewStreamSelectPlanner([]string{"app"}, []string{"!="}, []string{""})
+		}
+		sel, err := (&SeriesPlanner{FingerprintsPlanner: fp}).Process(ctx)
+		vrt.Assert(err == nil, "series-statement-built")
+		vwDateBounds(sel, "date", from, to, true, "series")
+		_, _, typeIn := vwPredicates(sel, "date")
+		vrt.Assert(typeIn == wantType, "series-read-restricted-to-the-api-signal")
+		want := "time_series"
+		if ctx.IsCluster {
+			want = "time_series_dist"
+		}
+		tbl, _ := sel.GetFrom().String(sql.DefaultCtx())
+		vrt.Assert(tbl == want+" as time_series" || tbl == want+" AS time_series", "series-read-from-the-layout's-table")
+	} else {
+		sel, err := (&ValuesPlanner{FingerprintsPlanner: fp, Key: "k"}).Process(ctx)
+		vrt.Assert(err == nil, "values-statement-built")
+		vwDateBounds(sel, "date", from, to, true, "values")
+		_, _, typeIn := vwPredicates(sel, "date")
+		vrt.Assert(typeIn == wantType, "values-read-restricted-to-the-api-signal")
+	}
 	vrt.Reach("end")
 }
